@@ -795,14 +795,14 @@ class Gen:
             start = ['lit', r.randrange(0, 6), 'd']
             step = ['lit', r.choice((1, 1, 1, 2, 3, -1, -2)), 'd']
             stop = ['lit', start[1] + step[1] * r.randrange(0, 5), 'd']
-            sep = r.choice((None, ', ', ';', ' ', '-', v + '/'))
-            fsep = r.choice((None, None, ' and ', '|', '')) if sep is not None else None
+            sep = r.choice((None, ', ', ';', ' ', '-', v + '/', ' & ', '<', ' > '))
+            fsep = r.choice((None, None, ' and ', '|', '', ' & ', '<>')) if sep is not None else None
             return ['for', start, stop, step, r.choice((0, 0, 0, 1, 2, 3, 4, 7)), v, self.S(depth - 1, v), sep, fsep, self.delim(True)]
         if k < 0.8 and var is None:
             v = r.choice(('q', 'jj', '$s', 'zz'))
-            items = [['t', self.text(1, 3, 'abcdefg12345')] for _ in range(r.randrange(1, 5))]
-            sep = r.choice((None, ', ', ';', ' ', '-'))
-            fsep = r.choice((None, None, ' and ', '', '')) if sep is not None else None
+            items = [['t', self.text(1, 3, 'abcdefg12345' if r.random() < 0.7 else 'ab12<>&')] for _ in range(r.randrange(1, 5))]
+            sep = r.choice((None, ', ', ';', ' ', '-', ' & ', '<'))
+            fsep = r.choice((None, None, ' and ', '', '', ' & ', '>')) if sep is not None else None
             return ['foreach', items, v, self.S(depth - 1, v, False), sep, fsep, self.delim(True)]
         if k < 0.86:
             names = list(self.m.vars)
